@@ -648,9 +648,21 @@ def rule_cycle_exists(ctx, c, rule):
                 fed = fed or any((o.path and ".report_interval" in o.path) or
                                  (o.kind == "upvar" and "report_interval" in str(o.key)) for o in src)
             same_loop = all(any(s in cf.reach([b]) and b in cf.reach([s]) for s in sl) for b in on_cycle)
-            ok = bool(on_cycle) and no_exit and bool(sl) and fed and same_loop
-            detail = "handle_commands on cycle: %s, loop has no return: %s, sleep on the same loop: %s, fed by report_interval: %s" % (
-                bool(on_cycle), no_exit, same_loop, fed)
+            # the pause is the interval minus the time the cycle took, measured from before the cycle
+            period = False
+            for s in sl:
+                src = c.prov.of_operand(cf, cf.term(s)["args"][0])
+                subs = [v[2] for o in src for v in o.via if v[0] == "call" and re.search(r"Duration::saturating_sub$|Duration::checked_sub$", v[1])]
+                nows = [v[2] for o in src for v in o.via if v[0] == "call" and re.search(r"Instant::now$", v[1])] + \
+                    [x for x in cf.calls_re(r"fastant::instant::Instant::now$|time::Instant::now$", cleanup=False)]
+                els = [v for o in src for v in o.via if v[0] == "call" and re.search(r"Instant::elapsed$", v[1])]
+                no_scale = not any(v[0] == "binop" and v[1] in ("Mul", "MulWithOverflow", "Shl") for o in src for v in o.via) and \
+                    not any(v[0] == "call" and re.search(r"Duration::(mul_f\d+|saturating_mul|checked_mul)$|ops::arith::Mul", v[1]) for o in src for v in o.via)
+                period = period or (bool(subs) and bool(els) and bool(nows) and no_scale and
+                                    all(any(cf.dominates(n, b) for n in nows) for b in on_cycle))
+            ok = bool(on_cycle) and no_exit and bool(sl) and fed and same_loop and period
+            detail = "handle_commands on cycle: %s, loop has no return: %s, sleep on the same loop: %s, fed by report_interval: %s, " \
+                     "pause = interval - elapsed since before the cycle (unscaled): %s" % (bool(on_cycle), no_exit, same_loop, fed, period)
         ctx.check(ok, rule, start.path, start.span,
                   "set_reporter starts a thread that runs handle_commands in an endless loop, sleeping by Config.report_interval",
                   detail, detail, extra="loop")
